@@ -133,7 +133,7 @@ class JobResult:
 
 
 class Job:
-    def __init__(self, cfg, argv, timeout=600, env_extra=None, label=None):
+    def __init__(self, cfg, argv, timeout=1800, env_extra=None, label=None):
         self.cfg = cfg
         self.argv = list(argv)
         self.timeout = timeout
